@@ -13,7 +13,9 @@ MANIFEST_ENTRY = {
     "category": "proof",
     "text": "Lean 4 theorem C17_lr_prefix_sound (for every wf table, input, recognizer behaviour: whatever the LR "
             "model returns with consume_input off derives a prefix ending at a token boundary) + verified prefix "
-            "oracle; C17_glr_model_prefix_sound: the same for the GLR driver model (a forest answer implies a sentence prefix, "
+            "oracle; C17_glr_model_prefix_sound / C17_glr_model_forest_prefix_sound: the same for the GLR driver model (a forest answer "
+            "implies a sentence prefix and every tree of its packed forest derives a prefix; the implementation's first "
+            "trees are looked up in that forest by the driver, "
             "for every wf table, input with idempotent layout skipping, fuel); the LR model is run against "
             "Parser(consume_input=False) and the GLR model against GLRParser(consume_input=False); GLR forests are compared with the "
             "complete SPPF over all sentence prefixes computed by the Lean spec, and SyntaxError is allowed only "
